@@ -358,6 +358,23 @@ def generate():
                      ["self.handlers_count = 0"], ["self.handlers = {}"], ["self.min_level = float('inf')"],
                      ["self.enabled = {}"], ["self.activation_list = []"], ["self.activation_none = True"]):
             find_subseq(init, pats, what="Core.__init__")
+        # add(level=_defaults.LOGURU_LEVEL): the threshold of a handler added without `level=`
+        dflt = None
+        for node in dtree.body:
+            if isinstance(node, ast.Assign) and isinstance(node.targets[0], ast.Name) and node.targets[0].id == "LOGURU_LEVEL" \
+                    and isinstance(node.value, ast.Call) and ast.unparse(node.value.func) == "env":
+                a = node.value.args
+                if len(a) == 3 and isinstance(a[0], ast.Constant) and a[0].value == "LOGURU_LEVEL" \
+                        and ast.unparse(a[1]) == "str" and isinstance(a[2], ast.Constant) and isinstance(a[2].value, str):
+                    dflt = a[2].value
+        addraw = find_func(find_class(ltree, "Logger"), "add")
+        kwd = {a.arg: d for a, d in zip(addraw.args.kwonlyargs, addraw.args.kw_defaults) if d is not None}
+        if dflt is None or ast.unparse(kwd.get("level", ast.Constant(0))) not in ("_defaults.LOGURU_LEVEL", "LOGURU_LEVEL"):
+            raise Unsupported("add: default of `level` is not the str default LOGURU_LEVEL of _defaults.py")
+        if ast.unparse(kwd.get("filter", ast.Constant(0))) not in ("_defaults.LOGURU_FILTER", "LOGURU_FILTER"):
+            raise Unsupported("add: default of `filter`")
+        body += "/-- `add(sink)` without `level=`: `_defaults.LOGURU_LEVEL` (a level NAME, resolved when the handler is added) -/\n"
+        body += "def addDefaultLevelName : Py.Str := %s\n\n" % lean_chars(dflt)
         body += "/-- `Core.__init__`: default levels (name, severity), numbers from `_defaults.py` -/\n"
         body += "def defaultLevels : List (Py.Str × Int) := [\n  " + ",\n  ".join(rows) + "]\n\n"
 
@@ -407,6 +424,15 @@ def generate():
         bd = find_subseq(logf, ["M_DN = M_NM + '.'"], {"M_NM": bs["M_NM"]}, what="_log dotted name")
         body_scan = _tr_bool(bs["E_T"], {bd["M_DN"]: ("dotted_name", "str"), bs["M_R"]: ("rule", "str")})
         scan_src = ast.unparse(bs["E_T"])
+
+        # which dict object receives the cache fill on a miss: the one fetched BEFORE the rules were read
+        # (a local bound to `core.enabled` ahead of every read of `activation_none` / `activation_list`), or
+        # `core.enabled` re-read AFTER them.  Decided on the RAW function: `prep` inlines exactly this alias.
+        fetched = _cache_fill_target(find_func(logger, "_log"))
+        body += ("/-- `_log`, cache miss: the fill `enabled[name] = status` goes into the dict object the reader fetched "
+                 "BEFORE it read the rules (`true`), or into `core.enabled` as re-read AFTER the rules (`false` - a status "
+                 "computed from rules older than the dict; refuted by `C01.cache_fill_into_republished_dict_refuted`) -/\n")
+        body += "def cacheFillIntoFetchedDict : Bool := %s\n\n" % ("true" if fetched else "false")
 
         # ---------------------------------------------------------------- Logger.add / remove / level
         addf = prep(find_func(logger, "add"))
@@ -460,6 +486,43 @@ def generate():
             raise Unsupported("add: partial(filter_by_name, parent=filter + '.', length=len(parent)) expected, got "
                               + ast.unparse(call))
 
+        # ---------------------------------------------------------------- add: dispatch on the class of the arguments
+        # The if/elif chains are regenerated IN SOURCE ORDER (the classes overlap: '' is a str, True/False are ints,
+        # builtins.filter is callable - so the order of the tests is part of the meaning); the model interprets
+        # the chains, `Lemmas.mkFilterC_eq` / `mkDictValC_eq` / `mkThresholdC_eq` prove they denote the documented reading.
+        fchain, felse = _chain(addf.body, "filter", _ftest, lambda st: _fact(st, "filter", FF), "add filter chain")
+        body += "/-- tests `add` applies to its `filter` argument -/\ninductive FTest where\n  | isNone | eqEmptyStr | isStr | isDict | isCallable\n  deriving DecidableEq, Repr\n"
+        body += "/-- what a branch of the `filter` chain does -/\ninductive FAct where\n  | noFilter | filterNone | byName | byLevel | callable | typeError\n  deriving DecidableEq, Repr\n"
+        body += "/-- `add`: the `if filter is None / elif ...` chain, in source order -/\n"
+        body += "def filterChain : List (FTest × FAct) := [%s]\n" % ", ".join("(.%s, .%s)" % x for x in fchain)
+        body += "/-- its `else` branch -/\ndef filterElse : FAct := .%s\n\n" % felse
+        VAL = dl[0].target.elts[1].id if isinstance(dl[0].target.elts[1], ast.Name) else "?"
+        KEY = dl[0].target.elts[0].id
+        vchain, velse = _chain(dl[0].body, VAL, _vtest, lambda st: _vact(st, VAL, LN), "add dict value chain")
+        body += "/-- tests `add` applies to a value of a `filter={...}` dict -/\ninductive VTest where\n  | isFalse | isTrue | isStr | isInt\n  deriving DecidableEq, Repr\n"
+        body += "inductive VAct where\n  | reject | const (n : Int) | levelByName | intValue | typeError\n  deriving DecidableEq, Repr\n"
+        body += "/-- `add`: the `if level_ is False / elif ...` chain over a dict value, in source order -/\n"
+        body += "def dictValueChain : List (VTest × VAct) := [%s]\n" % ", ".join("(.%s, .%s)" % x for x in vchain)
+        body += "def dictValueElse : VAct := .%s\n\n" % velse
+        kc = [n for n in dl[0].body if isinstance(n, ast.If) and _raises(n.body, "TypeError") and not n.orelse
+              and KEY in _names(n.test)]
+        if len(kc) != 1 or not any(pmatch(_pat(t % (KEY, KEY)).value, kc[0].test, {}) for t in
+                                   ("%s is not None and (not isinstance(%s, str))", "not isinstance(%s, str) and %s is not None")):
+            raise Unsupported("add: dict key check is not `module is not None and not isinstance(module, str)` -> TypeError")
+        if kc[0].lineno > [n for n in dl[0].body if isinstance(n, ast.If) and VAL in _names(n.test)][0].lineno:
+            raise Unsupported("add: dict key is no longer validated before its value")
+        tchain, telse = _chain(addf.body, "level", _ttest, lambda st: _tact(st, "level", LNO), "add level chain")
+        body += "/-- tests `add` applies to its `level` argument -/\ninductive LTest where\n  | isStr | isInt\n  deriving DecidableEq, Repr\n"
+        body += "inductive LAct where\n  | levelByName | intValue | typeError\n  deriving DecidableEq, Repr\n"
+        body += "/-- `add`: the `if isinstance(level, str) / elif ...` chain, in source order -/\n"
+        body += "def thresholdChain : List (LTest × LAct) := [%s]\n" % ", ".join("(.%s, .%s)" % x for x in tchain)
+        body += "def thresholdElse : LAct := .%s\n\n" % telse
+        # filter is validated before level (which error a doubly malformed call reports)
+        f_if = [n for n in addf.body if isinstance(n, ast.If) and "filter" in _names(n.test)][0]
+        l_if = [n for n in addf.body if isinstance(n, ast.If) and "level" in _names(n.test)][0]
+        if f_if.lineno > l_if.lineno:
+            raise Unsupported("add: `level` is validated before `filter`")
+
         remf = prep(find_func(logger, "remove"))
         RID = _param(remf, 1)
         # the loop body must recompute min_level and publish the registry BEFORE handler.stop() (user code that
@@ -509,6 +572,29 @@ def generate():
                               "published - refuted shape, see C01.stale_precolorized_formats_refuted; " + str(e))
         body += "/-- `level`: `%s` → ValueError -/\ndef levelRejectsNo (no : Int) : Bool := %s\n\n" % (
             ast.unparse(t), _tr_bool(t, {_param(levf, 2): ("no", "int")}))
+        # read / create / update / error: the body of `level` is EXECUTED over the finite abstract domain
+        # (kind of `no`) x (colour given) x (icon given) x (level exists); the model looks the outcome up
+        rows = _level_table(find_func(logger, "level"))
+        body += "/-- what a call of `level(name, no, color, icon)` with a `str` name does -/\ninductive LvOutcome where\n" \
+                "  | read | create | update | typeError | valueError\n  deriving DecidableEq, Repr\n"
+        body += "/-- `level`: (kind of `no`: 0 `None`, 1 int >= 0, 2 int < 0, 3 no int; `color` given; `icon` given; the level " \
+                "exists) ↦ outcome, obtained by running the function body over this abstract domain -/\n"
+        body += "def levelTable : List ((Nat × Bool × Bool × Bool) × LvOutcome) := [\n  " + ",\n  ".join(
+            "((%d, %s, %s, %s), .%s)" % (k, str(c).lower(), str(i).lower(), str(e).lower(), o) for (k, c, i, e), o in rows) + "]\n\n"
+
+        # ---------------------------------------------------------------- configure: the order of its stages
+        cfg = prep(find_func(logger, "configure"))
+        stages = []
+        for st in cfg.body:
+            if isinstance(st, ast.Expr) and isinstance(st.value, ast.Constant):
+                continue
+            stages.append(_cfg_stage(st))
+        if sorted(stages) != sorted(["removeAll", "levels", "patcher", "extra", "activation", "adds"]):
+            raise Unsupported("configure: stages found: %r" % (stages,))
+        body += "/-- the stages of `configure`, one per top-level statement -/\ninductive CfgStage where\n" \
+                "  | removeAll | levels | patcher | extra | activation | adds\n  deriving DecidableEq, Repr\n"
+        body += "/-- `configure`: its statements in source order (each stage raises out of the call at its first error) -/\n"
+        body += "def configureOrder : List CfgStage := [%s]\n\n" % ", ".join("." + x for x in stages)
 
         # ---------------------------------------------------------------- _change_activation
         chf = prep(find_func(logger, "_change_activation"))
@@ -610,6 +696,369 @@ def generate():
     body += "\nend Dispatch.Gen\n"
     return emit("Dispatch", body, ["loguru/_defaults.py", "loguru/_logger.py", "loguru/_handler.py", "loguru/_filters.py"],
                 errors)
+
+
+class _LvEnv:
+    def __init__(self, kind, color, icon, exists, params):
+        self.no, self.color, self.icon, self.exists = kind, color, icon, exists
+        self.pname, self.pno, self.pcolor, self.picon = params
+        self.existing = False
+
+
+def _level_table(fn):
+    """abstract execution of `Logger.level` (str name): statements allowed are if/elif/else over the tests below,
+    `raise X(...)`, the `try: return core.levels[name] / except KeyError: raise ...` read, assignments (only the one
+    that re-binds `no` from `self.level(name)` matters), the publishing `with` block and the final `return`"""
+    params = [a.arg for a in fn.args.args][1:5]
+    if len(params) != 4:
+        raise Unsupported("level: parameters")
+    rows = []
+    for kind in (0, 1, 2, 3):
+        for color in (False, True):
+            for icon in (False, True):
+                for exists in (False, True):
+                    env = _LvEnv(kind, color, icon, exists, params)
+                    out = _lv_run(fn.body, env)
+                    if out is None:
+                        raise Unsupported("level: falls off the end")
+                    rows.append(((kind, color, icon, exists), out))
+    return rows
+
+
+def _lv_is_levels_sub(node, env):
+    return isinstance(node, ast.Subscript) and ast.unparse(node.value) in ("self._core.levels", "core.levels") \
+        and ast.unparse(node.slice) == env.pname
+
+
+def _lv_none(node, env):
+    """abstract value: True = is None, False = not None, for the three optional parameters and the constant"""
+    if isinstance(node, ast.Constant) and node.value is None:
+        return True
+    if isinstance(node, ast.Name):
+        if node.id == env.pno:
+            return env.no == 0 and not env.existing
+        if node.id == env.pcolor:
+            return not env.color
+        if node.id == env.picon:
+            return not env.icon
+    raise Unsupported("level: identity test on " + ast.unparse(node))
+
+
+def _lv_cond(t, env):
+    if isinstance(t, ast.UnaryOp) and isinstance(t.op, ast.Not):
+        return not _lv_cond(t.operand, env)
+    if isinstance(t, ast.BoolOp):
+        vals = [_lv_cond(v, env) for v in t.values]
+        return all(vals) if isinstance(t.op, ast.And) else any(vals)
+    if isinstance(t, ast.Compare):
+        items = [t.left] + list(t.comparators)
+        if all(isinstance(o, (ast.Is, ast.IsNot)) for o in t.ops):
+            res = True
+            for a, o, b in zip(items, t.ops, items[1:]):
+                na, nb = _lv_none(a, env), _lv_none(b, env)
+                same = na and nb          # two distinct non-None arguments are never the same object
+                res = res and (same if isinstance(o, ast.Is) else not same)
+            return res
+        if len(t.ops) == 1 and isinstance(t.ops[0], (ast.In, ast.NotIn)) and ast.unparse(t.left) == env.pname \
+                and ast.unparse(t.comparators[0]) in ("self._core.levels", "core.levels"):
+            return env.exists if isinstance(t.ops[0], ast.In) else not env.exists
+        if len(t.ops) == 1 and isinstance(t.ops[0], (ast.Lt, ast.Gt, ast.LtE, ast.GtE)):
+            # only `no < 0` in any orientation, and only once `no` is known to be an int
+            a, b = t.left, t.comparators[0]
+            txt = (ast.unparse(a), type(t.ops[0]).__name__, ast.unparse(b))
+            if txt in ((env.pno, "Lt", "0"), ("0", "Gt", env.pno)):
+                if env.existing or env.no == 1:
+                    return False
+                if env.no == 2:
+                    return True
+                raise Unsupported("level: `no < 0` reached with a non-int")
+        raise Unsupported("level: test " + ast.unparse(t))
+    if isinstance(t, ast.Call) and ast.unparse(t.func) == "isinstance" and len(t.args) == 2:
+        who, cls = ast.unparse(t.args[0]), ast.unparse(t.args[1])
+        if who == env.pname and cls == "str":
+            return True
+        if who == env.pno and cls == "int":
+            return env.existing or env.no in (1, 2)
+    raise Unsupported("level: test " + ast.unparse(t))
+
+
+def _lv_run(stmts, env):
+    for st in stmts:
+        if isinstance(st, ast.Expr) and isinstance(st.value, ast.Constant):
+            continue
+        if isinstance(st, ast.If):
+            r = _lv_run(st.body if _lv_cond(st.test, env) else st.orelse, env)
+            if r is not None:
+                return r
+        elif isinstance(st, ast.Raise):
+            name = ast.unparse(st.exc.func) if isinstance(st.exc, ast.Call) else ast.unparse(st.exc)
+            if name == "TypeError":
+                return "typeError"
+            if name == "ValueError":
+                return "valueError"
+            raise Unsupported("level: raises " + name)
+        elif isinstance(st, ast.Try):
+            if len(st.body) == 1 and isinstance(st.body[0], ast.Return) and _lv_is_levels_sub(st.body[0].value, env) \
+                    and len(st.handlers) == 1 and ast.unparse(st.handlers[0].type) == "KeyError" and not st.orelse and not st.finalbody:
+                if env.exists:
+                    return "read"
+                r = _lv_run(st.handlers[0].body, env)
+                if r is not None:
+                    return r
+            else:
+                raise Unsupported("level: try statement")
+        elif isinstance(st, ast.Return):
+            if _lv_is_levels_sub(st.value, env):
+                return "read" if env.exists else "valueError"      # (KeyError escapes: not the code's shape)
+            if not getattr(env, "published", False):
+                raise Unsupported("level: returns before publishing")
+            return "update" if env.existing else "create"
+        elif isinstance(st, ast.Assign):
+            tg = [n.id for t in st.targets for n in ast.walk(t) if isinstance(n, ast.Name)]
+            if env.pno in tg:
+                # `_, no, old_color, old_icon = self.level(name)`: the severity of the EXISTING level
+                if isinstance(st.targets[0], ast.Tuple) and len(st.targets[0].elts) == 4 \
+                        and ast.unparse(st.targets[0].elts[1]) == env.pno \
+                        and ast.unparse(st.value) in ("self.level(%s)" % env.pname, "self._core.levels[%s]" % env.pname) \
+                        and env.exists:
+                    env.existing = True
+                else:
+                    raise Unsupported("level: `no` re-bound by " + ast.unparse(st))
+            if env.pcolor in tg:
+                env.color = True
+            if env.picon in tg:
+                env.icon = True
+        elif isinstance(st, ast.With):
+            txt = ast.unparse(st)
+            if "levels[%s]" % env.pname in txt and "levels_lookup[%s]" % env.pname in txt:
+                if env.no in (0, 3, 2) and not env.existing:
+                    raise Unsupported("level: publishes a level whose `no` was not validated")
+                env.published = True
+            else:
+                raise Unsupported("level: with block")
+        else:
+            raise Unsupported("level: statement " + ast.unparse(st)[:60])
+    return None
+
+
+def _self_calls(node):
+    out = []
+    for n in ast.walk(node):
+        if isinstance(n, ast.Call) and isinstance(n.func, ast.Attribute) and ast.unparse(n.func.value) == "self":
+            out.append(n.func.attr)
+    return out
+
+
+def _cfg_stage(st):
+    """which stage of `configure` a top-level statement is; the shapes pin what each stage does"""
+    calls = _self_calls(st)
+    src = ast.unparse(st).replace("\n", " ; ")
+    if calls == ["remove"]:
+        # `if handlers is not None: self.remove() / else: handlers = []`
+        if pmatch(_pat("if handlers is not None:\n    self.remove()\nelse:\n    handlers = []"), st, {}):
+            return "removeAll"
+    elif calls == ["level"]:
+        if pmatch(_pat("if levels is not None:\n    for M_P in levels:\n        self.level(**M_P)"), st, {}):
+            return "levels"
+    elif sorted(calls) == ["disable", "enable"]:
+        for shape in ("if activation is not None:\n    for M_N, M_S in activation:\n        if M_S:\n            self.enable(M_N)\n"
+                      "        else:\n            self.disable(M_N)",
+                      "if activation is not None:\n    for M_N, M_S in activation:\n        (self.enable if M_S else self.disable)(M_N)"):
+            if pmatch(_pat(shape), st, {}):
+                return "activation"
+    elif calls == ["add"]:
+        if pmatch(_pat("return [self.add(**M_P) for M_P in handlers]"), st, {}):
+            return "adds"
+    elif not calls:
+        stores = {ast.unparse(t) for n in ast.walk(st) if isinstance(n, ast.Assign) for t in n.targets}
+        if stores == {"self._core.patcher"} and isinstance(st, ast.If) and "patcher" in _names(st.test):
+            return "patcher"
+        if not stores and isinstance(st, ast.If) and "extra" in _names(st.test) and "self._core.extra" in src:
+            return "extra"
+    raise Unsupported("configure: unrecognised statement: " + src[:160])
+
+
+def _chain(block, var, test_of, act_of, what):
+    """the unique top-level `if <test on var> ... elif ... else ...` of `block`, as ([(test tag, action tag)], else tag)"""
+    heads = []
+    for st in block:
+        if isinstance(st, ast.If):
+            try:
+                test_of(st.test, var)
+                heads.append(st)
+            except Unsupported:
+                pass
+    if len(heads) != 1:
+        raise Unsupported("%s: expected exactly one if/elif chain on `%s`, found %d" % (what, var, len(heads)))
+    node, out = heads[0], []
+    while True:
+        out.append((test_of(node.test, var), act_of(node.body)))
+        if len(node.orelse) == 1 and isinstance(node.orelse[0], ast.If):
+            node = node.orelse[0]
+            continue
+        if not node.orelse:
+            raise Unsupported("%s: chain without else branch" % what)
+        els = act_of(node.orelse)
+        break
+    if len({t for t, _ in out}) != len(out):
+        raise Unsupported("%s: a test occurs twice" % what)
+    return out, els
+
+
+def _isinst(test, var, cls):
+    return pmatch(_pat("isinstance(%s, %s)" % (var, cls)).value, test, {})
+
+
+def _ftest(test, var):
+    for src, tag in (("%s is None", "isNone"), ("%s == ''", "eqEmptyStr"), ("'' == %s", "eqEmptyStr"),
+                     ("callable(%s)", "isCallable")):
+        if pmatch(_pat(src % var).value, test, {}):
+            return tag
+    if _isinst(test, var, "str"):
+        return "isStr"
+    if _isinst(test, var, "dict"):
+        return "isDict"
+    raise Unsupported("unknown test on %s: %s" % (var, ast.unparse(test)))
+
+
+def _assigned(stmts, target):
+    return [n.value for st in stmts for n in ast.walk(st) if isinstance(n, ast.Assign) and len(n.targets) == 1
+            and isinstance(n.targets[0], ast.Name) and n.targets[0].id == target]
+
+
+def _fact(stmts, var, ff):
+    if _raises(stmts, "TypeError"):
+        return "typeError"
+    vals = _assigned(stmts, ff)
+    if len(vals) != 1:
+        raise Unsupported("add filter chain: branch does not assign the filter function once: "
+                          + " ; ".join(ast.unparse(s) for s in stmts)[:120])
+    v = vals[0]
+    txt = ast.unparse(v)
+    if len(stmts) == 1 and isinstance(v, ast.Constant) and v.value is None:
+        return "noFilter"
+    if len(stmts) == 1 and txt.split(".")[-1] == "filter_none":
+        return "filterNone"
+    if isinstance(v, ast.Call) and txt.split("(")[0].split(".")[-1] == "partial" and v.args:
+        fn = ast.unparse(v.args[0]).split(".")[-1]
+        if fn == "filter_by_name":
+            return "byName"
+        if fn == "filter_by_level" and any(isinstance(n, ast.For) and ast.unparse(n.iter) == var + ".items()" for n in stmts):
+            return "byLevel"
+    if txt == var:
+        # the callable branch must refuse builtins.filter first
+        g = [n for n in stmts if isinstance(n, ast.If) and _raises(n.body, "ValueError") and not n.orelse and any(
+            pmatch(_pat(t % var).value, n.test, {}) for t in ("%s == builtins.filter", "builtins.filter == %s",
+                                                                "%s is builtins.filter"))]
+        if len(g) == 1 and len(stmts) == 2 and stmts.index(g[0]) == 0:
+            return "callable"
+    raise Unsupported("add filter chain: unknown branch: " + " ; ".join(ast.unparse(s) for s in stmts)[:160])
+
+
+def _vtest(test, var):
+    for src, tag in (("%s is False", "isFalse"), ("%s is True", "isTrue")):
+        if pmatch(_pat(src % var).value, test, {}):
+            return tag
+    if _isinst(test, var, "str"):
+        return "isStr"
+    if _isinst(test, var, "int"):
+        return "isInt"
+    raise Unsupported("unknown test on %s: %s" % (var, ast.unparse(test)))
+
+
+def _vact(stmts, var, ln):
+    if _raises(stmts, "TypeError"):
+        return "typeError"
+    vals = _assigned(stmts, ln)
+    if len(vals) != 1:
+        raise Unsupported("add dict value chain: branch does not assign the level once")
+    v = vals[0]
+    if len(stmts) == 1 and isinstance(v, ast.Constant) and v.value is False:
+        return "reject"
+    if len(stmts) == 1 and isinstance(v, ast.Constant) and isinstance(v.value, int) and not isinstance(v.value, bool):
+        return "const %d" % v.value if v.value >= 0 else "const (%d)" % v.value
+    if pmatch(_pat("self.level(%s).no" % var).value, v, {}):
+        # `try: levelno_ = self.level(level_).no / except ValueError: raise ValueError(...)`
+        if len(stmts) == 1 and (isinstance(stmts[0], ast.Assign) or (
+                isinstance(stmts[0], ast.Try) and len(stmts[0].handlers) == 1
+                and ast.unparse(stmts[0].handlers[0].type) == "ValueError" and _raises(stmts[0].handlers[0].body, "ValueError")
+                and not stmts[0].orelse and not stmts[0].finalbody)):
+            return "levelByName"
+    if len(stmts) == 1 and ast.unparse(v) == var:
+        return "intValue"
+    raise Unsupported("add dict value chain: unknown branch: " + " ; ".join(ast.unparse(s) for s in stmts)[:160])
+
+
+def _ttest(test, var):
+    if _isinst(test, var, "str"):
+        return "isStr"
+    if _isinst(test, var, "int"):
+        return "isInt"
+    raise Unsupported("unknown test on %s: %s" % (var, ast.unparse(test)))
+
+
+def _tact(stmts, var, lno):
+    if _raises(stmts, "TypeError"):
+        return "typeError"
+    vals = _assigned(stmts, lno)
+    if len(stmts) == 1 and len(vals) == 1:
+        if pmatch(_pat("self.level(%s).no" % var).value, vals[0], {}):
+            return "levelByName"
+        if ast.unparse(vals[0]) == var:
+            return "intValue"
+    raise Unsupported("add level chain: unknown branch: " + " ; ".join(ast.unparse(s) for s in stmts)[:160])
+
+
+def _pos(n):
+    return (n.lineno, n.col_offset)
+
+
+def _cache_fill_target(logf_raw):
+    """True: every `X[name] = status` of the cache-miss handler stores through a local that was bound to
+    `<core>.enabled` before the first read of `.activation_none` / `.activation_list`; False: every such store goes
+    through `<core>.enabled` itself (or a local bound after the rules were read).  Mixed / anything else: Unsupported."""
+    cores = {"self._core"}
+    for n in ast.walk(logf_raw):
+        if isinstance(n, ast.Assign) and len(n.targets) == 1 and isinstance(n.targets[0], ast.Name) \
+                and ast.unparse(n.value) == "self._core":
+            cores.add(n.targets[0].id)
+    # locals bound to <core>.enabled (position of the binding)
+    alias = {}
+    for n in ast.walk(logf_raw):
+        if isinstance(n, ast.Assign) and len(n.targets) == 1 and isinstance(n.targets[0], ast.Name) \
+                and isinstance(n.value, ast.Attribute) and n.value.attr == "enabled" and ast.unparse(n.value.value) in cores:
+            if n.targets[0].id in alias:
+                raise Unsupported("_log: cache dict alias bound twice")
+            alias[n.targets[0].id] = _pos(n)
+    dicts = {c + ".enabled" for c in cores} | set(alias)
+    tries = [n for n in ast.walk(logf_raw) if isinstance(n, ast.Try)
+             and any(isinstance(x, ast.Subscript) and ast.unparse(x.value) in dicts for st in n.body for x in ast.walk(st))
+             and any("KeyError" in ast.unparse(h.type) for h in n.handlers if h.type is not None)]
+    if len(tries) != 1 or len(tries[0].handlers) != 1:
+        raise Unsupported("_log: `try: core.enabled[name] ... except KeyError:` not found")
+    hnd = tries[0].handlers[0]
+    rules = [_pos(n) for st in hnd.body for n in ast.walk(st) if isinstance(n, ast.Attribute)
+             and n.attr in ("activation_list", "activation_none") and ast.unparse(n.value) in cores]
+    if not rules:
+        raise Unsupported("_log: the cache-miss handler does not read the activation rules")
+    first_rule = min(rules)
+    kinds = set()
+    for st in hnd.body:
+        for n in ast.walk(st):
+            if isinstance(n, ast.Assign):
+                for t in n.targets:
+                    if isinstance(t, ast.Subscript):
+                        base = ast.unparse(t.value)
+                        if base in alias:
+                            # bound before the try statement, or inside the handler ahead of the first rules read
+                            kinds.add(alias[base] < first_rule and (alias[base] >= _pos(hnd) or alias[base] < _pos(tries[0])))
+                        elif base in {c + ".enabled" for c in cores}:
+                            kinds.add(False)
+                        else:
+                            raise Unsupported("_log: cache-miss handler stores into " + base)
+    if len(kinds) != 1:
+        raise Unsupported("_log: the cache fills of the miss handler do not all go through one dict object")
+    return kinds.pop()
 
 
 def _strip_orelse(loop):
